@@ -239,14 +239,49 @@ def scn_history(ctx):
     mono0 = MONO[ch.draw(len(MONO), "mono_energy")] if ch.draw(3, "mono_config") == 2 else None
     monos = {}
 
+    # one history in three: ONE configuration object serves the whole session and is edited before
+    # each construction (`for v in "123": cfg...table_version = v; taus[v] = Taus(cfg)`): an object
+    # answers from the table it loaded, whatever the configuration says by now
+    shared = [_config(v0, mono0)] if ch.draw(3, "one_shared_mutable_config") == 2 else None
+    if shared:
+        ctx.probes["one_shared_mutable_config"] += 1
+
+    def cfg_for(vv, mm):
+        if not shared:
+            return _config(vv, mm)
+        from nuspacesim.config import Simulation
+
+        c = shared[0]
+        c.simulation.tau_shower.table_version = vv
+        if mm is not None:
+            c.simulation.spectrum = Simulation.MonoSpectrum(log_nu_energy=mm)
+        return c
+
     def new_obj(vv):
         # some objects are built from a configuration with a mono-energetic spectrum off the table nodes
         mm = mono0 if ch.draw(2, "obj_mono") == 0 else MONO[ch.draw(len(MONO), "obj_mono_e")]
-        o = Taus(_config(vv, mm))
+        o = Taus(cfg_for(vv, mm))
         monos[id(o)] = mm
         return o
 
-    first = Taus(_config(v0, mono0))
+    # one history in three: the caller keeps preallocated work buffers and refills them in place
+    # for every call (the same ndarray objects come back with other contents)
+    reuse = ch.draw(3, "caller_refills_work_buffers") == 2
+    bufs = {}
+
+    def via_buf(tag, a):
+        if not reuse or a.ndim != 1 or not a.flags.c_contiguous:
+            return a
+        key = (tag, a.shape, a.dtype.str)
+        b = bufs.get(key)
+        if b is None:
+            b = bufs[key] = np.empty(a.shape, a.dtype)
+        else:
+            ctx.probes["work_buffer_refilled_in_place"] += 1
+        b[...] = a
+        return b
+
+    first = Taus(cfg_for(v0, mono0))
     monos[id(first)] = mono0
     objs = [(v0, first)]
     memos = {v0: {}}
@@ -291,7 +326,7 @@ def scn_history(ctx):
         elif kind == 4 and ch.draw(24, "huge") == 23:
             # beyond the next "natural" block sizes (2**16, 2**18, 2**20), not a multiple of them
             a = ch.draw(m, "big_a")
-            sizes = (65537, 262145, 300001) + ((1048577,) if tier == "thorough" else ())
+            sizes = (65537, 262145, 300001) + ((1048577, 2097153, 4194305) if tier == "thorough" else ())
             n = sizes[ch.draw(len(sizes), "huge_n")]
             idx = (a + np.arange(n)) % m
             name = f"tau_exit_prob[{n}]"
@@ -311,6 +346,11 @@ def scn_history(ctx):
         elif kind == 3:
             idx = histsim.draw_indices(ch, m, 32)
             name = "reject"
+            if ch.draw(160 if tier == "quick" else 60, "huge_reject") == 7:
+                # the out-of-table energy hides in a batch beyond the next block sizes (2**21, 2**22)
+                n = (2**21 + 1, 2**22 + 3)[ch.draw(2, "huge_reject_n") if tier == "thorough" else 0]
+                idx = (ch.draw(m, "big_a") + np.arange(n)) % m
+                ctx.probes["rejected_energy_in_batch_gt_2^21"] += 1
         else:  # 5: bring another object into play: same version, or another shipped version
             nv = v0 if ch.draw(3, "other_version") == 0 else VERSIONS[ch.draw(3, "new_version")]
             cp = ch.draw(5, "copy_object")
@@ -347,8 +387,13 @@ def scn_history(ctx):
             continue
         kinds_seen.add(name)
         idx = np.asarray(idx)
+        if reuse and bufs and name != "reject" and len(idx) <= 4096 and ch.draw(2, "same_size_as_before"):
+            sizes_used = sorted({k[1][0] for k in bufs})
+            idx = np.resize(idx, sizes_used[ch.draw(len(sizes_used), "which_size")])
         E = histsim.layout(ch, P["E"][idx], "layoutE")
         B = histsim.layout(ch, P["B"][idx], "layoutB")
+        if name != "reject":
+            E, B = via_buf("E", E), via_buf("B", B)
         if not (E.flags.c_contiguous and B.flags.c_contiguous):
             ctx.probes["non_contiguous_argument"] += 1
         ctx.steps += 1
